@@ -2568,7 +2568,12 @@ func (c *streamableClientConn) handleSSE(ctx context.Context, requestSummary str
 
 		resp = newResp
 		if err := c.checkResponse(ctx, requestSummary, resp); err != nil {
-			c.fail(err)
+			// As above: a refused resumption breaks the logical session, unless
+			// the caller has abandoned the request in the meantime (the error body
+			// is read under its context).
+			if ctx.Err() == nil {
+				c.fail(err)
+			}
 			return
 		}
 	}
